@@ -343,6 +343,7 @@ def norm_events(events):
         e["qs"] = e.get("qs") or []
         for q in e["qs"]:
             q["sel"] = q.get("sel") or []
+            q["l"] = q.get("l") or []
     return events
 
 
@@ -469,17 +470,25 @@ def compiled(ctx, fvs, progs, imgs, descs, plan):
     return traces, tmeta
 
 
-def answers_guard(traces):
+def answers_guard(traces, imgs):
     """vacuity: every kind of lookup was answered with a descriptor at least once, the ones that can cross files also
     with a descriptor of another file, and nil answers for not-yet-registered includes were seen"""
-    hit, cross, early = {}, {}, 0
+    hit, cross, early, far = {}, {}, 0, 0
     for t in traces:
+        img = imgs[t["p"] - 1]
         nreg = 0
         for e in t["events"]:
             if e["op"] == "reg":
                 nreg += 1
             for q in e["qs"]:
                 k = q["q"]
+                if k in ("allmethods", "closure") and q["l"]:
+                    hit[k] = hit.get(k, 0) + 1
+                    if any(x[0] > 0 and x[0] != q["f"] for x in q["l"]):
+                        cross[k] = cross.get(k, 0) + 1
+                    near = {q["f"]} | {i["file"] for i in img[q["f"] - 1]["incs"]}
+                    if k == "allmethods" and any(x[0] > 0 and x[0] not in near for x in q["l"]):
+                        far += 1      # inherited from a file the service's own file does not include
                 if q["rf"] > 0 or q["rj"] > 0 or (k == "togo" and q["ri"] > 0):
                     hit[k] = hit.get(k, 0) + 1
                     if q["rf"] > 0 and q["rf"] != q["f"]:
@@ -487,12 +496,14 @@ def answers_guard(traces):
                 elif k == "get" and q["pre"] and nreg < len(t["order"]) and not q["err"]:
                     early += 1
     for k in ("fd", "inc", "get", "lookup", "glob", "method", "svcmethod", "parent", "fieldid", "fieldname", "tref", "own",
-              "togo", "bygo"):
+              "togo", "bygo", "allmethods", "methodfromall", "closure"):
         if not hit.get(k):
             raise vlib.MachineryError("vacuous: no non-nil answer to any %r lookup" % k)
-    for k in ("inc", "get", "lookup", "method", "parent", "tref"):
+    for k in ("inc", "get", "lookup", "method", "parent", "tref", "allmethods", "methodfromall", "closure"):
         if not cross.get(k):
             raise vlib.MachineryError("vacuous: no %r lookup was answered with a descriptor of another file" % k)
+    if not far:
+        raise vlib.MachineryError("vacuous: no service inherits methods over two include hops from a file its own file does not include")
     if not early:
         raise vlib.MachineryError("vacuous: no lookup through an alias while the included file was not registered yet")
 
@@ -528,7 +539,7 @@ def run(ctx, args):
     vlib.log("compiled: %d registry traces" % len(t2))
     traces, tmeta = t1 + t2, m1 + m2
     if not args.replay:
-        answers_guard(traces)
+        answers_guard(traces, imgs)
     accepted, rejected, diag = validate_traces(ctx, imgs, [{"p": t["p"], "kind": t["kind"], "events": t["events"]} for t in traces], "all")
     for i, t in enumerate(traces):
         k = tmeta[i]
